@@ -1,4 +1,4 @@
 """C03 - Commit's answer under single and double faults at every RPC index of Commit."""
 from checks.txn_common import run_txn_check
 def run(tier, seed, replay=None):
-    return run_txn_check("C03", [("c03", 6, 1)], tier, seed, replay)
+    return run_txn_check("C03", [("c03", 6, 1), ("c03uni", 12, 1)], tier, seed, replay)
